@@ -672,6 +672,13 @@ ROOT_KEY = -100
 def _dot_parse(lines):
     nodes, edges, section = [], [], None
     for ln in lines:
+        if ln.startswith("  # Default Definitions"):
+            section = "d"
+            continue
+        if section == "d" and ln.strip() and not ln.startswith("  # "):
+            if not _re.match(r'^\s+(graph|node|edge) ', ln):
+                raise TypeError(f"unparsed DOT default line {ln!r}")
+            continue
         if ln.startswith("  # Node Definitions"):
             section = "n"
             continue
@@ -743,6 +750,8 @@ def obs_c17(c: Ctx):
                     elif mstyle == 2:
                         kw = {"node_mapper": lambda nd, data: dict(data, shape="box"),
                               "edge_mapper": lambda nd, data: {"color": "red"}}
+                    if mstyle == 1:   # default attribute sections
+                        kw.update(graph_attrs={"rankdir": "LR"}, node_attrs={"style": "filled"}, edge_attrs={"penwidth": 2})
                     if s == 0:
                         return list(tree.to_dot(add_root=self_, unique_nodes=unique, **kw))
                     return list(c.b.nodes[s].to_dot(add_self=self_, unique_nodes=unique, **kw))
